@@ -227,7 +227,12 @@ CCols(g, V) == ColsTouching(g, MaskCentreX(g, V), 1)
 Circular(g, V) == \A a \in CRows(g, V), b \in CCols(g, V) : RowCount(V, a) = ColCount(V, b)
 NotCircular(g, V) == \A a \in CRows(g, V), b \in CCols(g, V) : RowCount(V, a) # ColCount(V, b)
 Q == 64   \* fixed-point unit: 1/64 half-tick
-HilOK(r) == GeoRecOK(r) /\ IsPairSeq(r.out) /\ r.pixels >= 1
+HilOK(r) == GeoRecOK(r) /\ IsPairSeq(r.out) /\ r.pixels >= 1 /\ Len(r.st) = 4 /\ r.st[2] >= 1
+\* r.st = << minimum mesh pixels per pixel (-2: no settings, -1: None), N, background threshold numerator over 2 (-1: None),
+\*          background fraction numerator over 2 >>: the settings the mesh forwards to the two checks.  Three outcomes do not depend
+\* on where the points fall: no pixel can hold more than `pixels` points; an empty background holds none; zero is never undercut.
+HilMustRaise(r) == r.st[1] > r.pixels \/ (r.st[3] > 0 /\ r.st[4] = 0)
+HilMustPass(r) == r.st[1] <= 0 /\ r.st[3] <= 0
 HilClauses(r) ==
     IF ~ HilOK(r) THEN << Cl("record-well-formed", FALSE) >> ELSE
     LET g == G(r) V == Un(r) IN
@@ -242,7 +247,10 @@ HilClauses(r) ==
         fy == 2 * HilbertFirstInDisc[2] - 193   fx == 2 * HilbertFirstInDisc[1] - 193     \* << kx, ky >>: the curve's first / last
         ly == 2 * HilbertLastInDisc[2] - 193    lx == 2 * HilbertLastInDisc[1] - 193      \* point inside the circle (ImageMesh.tla)
         positive == r.wfn > 0 \/ r.wp = 0                                    \* every weight on the curve is positive
-    IN << Cl("no-exception", r.raised = ""),
+    IN IF HilMustRaise(r) THEN << Cl("settings-that-no-mesh-can-meet-raise", r.raised = "InversionException") >>
+       ELSE IF ~ HilMustPass(r) /\ r.raised = "InversionException" THEN << >>   \* the outcome depends on the inexact positions: not judged
+       ELSE
+       << Cl("no-exception", r.raised = ""),
           Cl("returns-Grid2DIrregular", r.typ = "Grid2DIrregular"),
           Cl("number-of-points-is-pixels", Len(r.out) = r.pixels),
           Cl("every-point-inside-the-circle-of-the-mask-radius-about-the-mask-origin",
@@ -253,7 +261,18 @@ HilClauses(r) ==
              positive /\ Len(r.out) >= 1 => Abs(193 * r.out[1][1] - fy * Rq) <= 2 * 193 /\ Abs(193 * r.out[1][2] - fx * Rq) <= 2 * 193),
           Cl("last-point-is-the-last-curve-point-inside-the-circle",
              positive /\ Len(r.out) >= 2 => Abs(193 * r.out[Len(r.out)][1] - ly * Rq) <= 2 * 193
-                                            /\ Abs(193 * r.out[Len(r.out)][2] - lx * Rq) <= 2 * 193) >>
+                                            /\ Abs(193 * r.out[Len(r.out)][2] - lx * Rq) <= 2 * 193),
+          \* weight_power 0: all weights are 1 -> the points are the equal quantiles of the curve inside the circle
+          Cl("uniform-weights-sample-the-curve-at-equal-quantiles",
+             r.wp = 0 /\ Len(r.out) = r.pixels /\ r.pixels >= 2 =>
+                LET N == HilbertPointsInDisc  n == r.pixels  C == HilbertCurveInDisc IN
+                \A j \in 0 .. n - 1 :
+                    LET m == UniformSeg(N, n, j)
+                        f == UniformNum(N, n, j)
+                        ey == (2 * C[m+1][2] - 193) * (n-1) + 2 * f * (C[m+2][2] - C[m+1][2])     \* over 193 (n-1), times Rq
+                        ex == (2 * C[m+1][1] - 193) * (n-1) + 2 * f * (C[m+2][1] - C[m+1][1])
+                    IN /\ Abs(193 * (n-1) * r.out[j+1][1] - Rq * ey) <= 2 * 193 * (n-1)
+                       /\ Abs(193 * (n-1) * r.out[j+1][2] - Rq * ex) <= 2 * 193 * (n-1)) >>
 HilSig(r) ==
     "Hilbert.image_plane_mesh_grid_from:" \o
     (IF ~ HilOK(r) THEN "malformed" ELSE IF r.sy # r.sx THEN "anisotropic"
@@ -262,7 +281,10 @@ HilSig(r) ==
 \* ---- KMeans image mesh ----------------------------------------------------------------------------------------
 \* r.out relative to the mask origin in units of 1/64 half-tick
 Orient(p, q, c) == (q[1] - p[1]) * (c[2] - p[2]) - (q[2] - p[2]) * (c[1] - p[1])
-KmOK(r) == GeoRecOK(r) /\ IsPairSeq(r.out) /\ r.pixels >= 1
+KmOK(r) == /\ GeoRecOK(r) /\ IsPairSeq(r.out) /\ r.pixels >= 1 /\ Len(r.ad) = Len(r.u) /\ r.M >= 1 /\ r.wp \in 0 .. 2 /\ r.wfd >= 1 /\ r.wfn >= 0
+           /\ \A k \in DOMAIN r.ad : r.ad[k] >= 0 /\ r.ad[k] <= r.M
+\* weight of the k-th unmasked pixel (slim order) times M^p wfd: (a/M)^p floored at wfn/wfd
+KmWeight(r, k) == IF Pow(r.ad[k], r.wp) * r.wfd < r.wfn * Pow(r.M, r.wp) THEN r.wfn * Pow(r.M, r.wp) ELSE Pow(r.ad[k], r.wp) * r.wfd
 KmClauses(r) ==
     IF ~ KmOK(r) THEN << Cl("record-well-formed", FALSE) >> ELSE
     LET g == G(r) V == Un(r)
@@ -279,7 +301,15 @@ KmClauses(r) ==
                   \A k \in DOMAIN r.out :
                       LET c == Pair(r.out[k]) IN
                       /\ c[1] >= Min(ys) - 1 /\ c[1] <= Max(ys) + 1 /\ c[2] >= Min(xs) - 1 /\ c[2] <= Max(xs) + 1
-                      /\ \A e \in sides : Orient(e[1], e[2], c) >= -(Abs(e[2][1] - e[1][1]) + Abs(e[2][2] - e[1][2]))) >>
+                      /\ \A e \in sides : Orient(e[1], e[2], c) >= -(Abs(e[2][1] - e[1][1]) + Abs(e[2][2] - e[1][2]))),
+               \* one cluster: its centre is the centroid of the unmasked pixel centres weighted by the weight map
+               Cl("single-mesh-pixel-is-the-weighted-centroid",
+                  r.pixels = 1 /\ Len(r.out) = 1 =>
+                     LET sl == SlimSeq(V, r.h, r.w)
+                         sw == SumSeq([k \in 1 .. Len(sl) |-> KmWeight(r, k)])
+                         my == SumSeq([k \in 1 .. Len(sl) |-> KmWeight(r, k) * (CentreY(g, sl[k][1]) - g.oy) * Q])
+                         mx == SumSeq([k \in 1 .. Len(sl) |-> KmWeight(r, k) * (CentreX(g, sl[k][2]) - g.ox) * Q])
+                     IN Abs(r.out[1][1] * sw - my) <= 2 * sw /\ Abs(r.out[1][2] * sw - mx) <= 2 * sw) >>
 KmSig(r) == "KMeans.image_plane_mesh_grid_from:" \o
             (IF ~ KmOK(r) THEN "malformed" ELSE IF r.pixels > Len(r.u) THEN "more-mesh-pixels-than-image-pixels" ELSE r.via)
 
